@@ -166,7 +166,7 @@ func (lp *logProcessor[INPUT, OUTPUT]) forgeLog(
 		if errors.Is(err, postgres.ErrDeadlockDetected) || errors.Is(err, ledgerstore.ErrIdempotencyKeyConflict{}) {
 			return lp.forgeLogRetry(ctx, store, parameters, fn)
 		}
-		return nil, nil, false, fmt.Errorf("unexpected error while forging log: %w", err)
+		return lp.errorOrIKOutcome(ctx, store, parameters, err)
 	}
 
 	if parameters.DryRun {
@@ -210,12 +210,23 @@ func (lp *logProcessor[INPUT, OUTPUT]) forgeLogRetry(
 
 				return log, output, true, nil
 			default:
-				return nil, nil, false, fmt.Errorf("unexpected error while forging log: %w", err)
+				return lp.errorOrIKOutcome(ctx, store, parameters, err)
 			}
 		}
 
 		return log, output, false, nil
 	}
+}
+
+// errorOrIKOutcome is called when the write failed. A concurrent request carrying the same idempotency key may have
+// committed after our initial lookup (we were waiting on its locks): its log is then the outcome of this key, not our error.
+func (lp *logProcessor[INPUT, OUTPUT]) errorOrIKOutcome(ctx context.Context, store Store, parameters Parameters[INPUT], err error) (*ledger.Log, *OUTPUT, bool, error) {
+	if parameters.IdempotencyKey != "" {
+		if log, output, ikErr := lp.fetchLogWithIK(ctx, store, parameters); ikErr != nil || output != nil {
+			return log, output, ikErr == nil, ikErr
+		}
+	}
+	return nil, nil, false, fmt.Errorf("unexpected error while forging log: %w", err)
 }
 
 func (lp *logProcessor[INPUT, OUTPUT]) fetchLogWithIK(ctx context.Context, store Store, parameters Parameters[INPUT]) (*ledger.Log, *OUTPUT, error) {
